@@ -51,18 +51,25 @@ def model_check(prop, cfgname):
 
 
 def backoff_cases(bot):
-    """Cross product of the configuration / attempt classes exported by TLC (MCSigner!BoTable)."""
+    """Concrete inputs of (*Config).Backoff: the cross product of the configuration / attempt classes exported by TLC
+    (MCSigner!BoTable) and every (configuration, attempt) of the bounded backoff model (unit 1 ms)."""
     ms, s = 1000000, 1000000000
     out = []
-    for mx in bot["max"]:
+    cl = bot["classes"]
+    for mx in cl["max"]:
         mxv = {"15s": 15 * s, "1ms": ms}[mx]
-        for b in bot["base"]:
+        for b in cl["base"]:
             bv = {"zero": 0, "small": max(1, mxv // 7), "max": mxv}[b]
-            for m in bot["mult"]:
-                for j in bot["jit"]:
-                    for a in bot["attempts"]:
+            for m in cl["mult"]:
+                for j in cl["jit"]:
+                    for a in cl["attempts"]:
                         out.append({"tid": "bo%d" % len(out), "base": str(bv), "max": str(mxv), "mult": float(m), "jit": float(j), "attempt": a,
                                     "class": "base=%s mult=%s jit=%s" % (b, m, j)})
+    for c in bot["model"]["cfgs"]:
+        for a in bot["model"]["attempts"]:
+            b = "zero" if c["base"] == 0 else ("max" if c["base"] == c["max"] else "pos")
+            out.append({"tid": "bm%d" % len(out), "base": str(c["base"] * ms), "max": str(c["max"] * ms), "mult": float(c["mult"]), "jit": c["jit"] / 10.0,
+                        "attempt": str(a), "class": "base=%s mult=%s jit=%s" % (b, c["mult"], c["jit"] / 10.0)})
     return out
 
 
@@ -256,7 +263,7 @@ def run(prop, tier):
         if ci == 0:
             nrand = {"C17": (400, 6000), "C18": (300, 4000)}[prop][tier == "thorough"]
         plan = {"mode": conf["mode"], "cases": cases, "random": nrand, "n0": prop == "C17" and ci == 0, "replays": [],
-                "lanes": 48 if prop == "C17" else 8, "tryms": 300}
+                "lanes": 48 if prop == "C17" else 8, "tryms": 500}
         traces, summ = run_signer(prop, sbin, wd, plan, "main")
         if summ["cases"] != len(cases) + nrand + (4 if plan["n0"] else 0) or len(traces) != summ["cases"]:
             raise NoVerdict("the harness did not execute every planned case (%s of %d)" % (summ.get("cases"), len(cases) + nrand))
